@@ -61,6 +61,16 @@ def impl_case(case):
     for cb, data in case["items"]:
         if cb is None:
             c.add(item_widget(len(fired) + data), None, data)
+        elif cb % 2 == 1:
+            # a bound method of an object nothing else refers to (`container.add(w, Handler(...).select, data)`): the
+            # container item itself must keep its callback alive
+            class Handler:
+                def __init__(self, cb):
+                    self.cb = cb
+
+                def select(self, d):
+                    fired.append([self.cb, d])
+            c.add(item_widget(data), Handler(cb).select, data)
         else:
             c.add(item_widget(data), (lambda d, cb=cb: fired.append([cb, d])), data)
     hist = case.get("history")
